@@ -231,6 +231,8 @@ def _segment_write(vc):
             vc.ensure("object[%d]/index-present-iff-it-has-data" % i, (index is not None) == has_data)
             exp_props = o.properties or {}
             vc.ensure("object[%d]/property-count" % i, len(props) == len(exp_props))
+            for j, ((pname, ptype, pval), (ename, evalue)) in enumerate(zip(props, exp_props.items())):
+                check_property(vc, "object[%d]/property[%d]" % (i, j), pname, ptype, pval, ename, evalue)
             if index is None:
                 continue
             tcode, nv, total = index
@@ -282,6 +284,46 @@ def _segment_write(vc):
         vc.ensure("metadata-parses-under-the-layout-grammar (%s)" % e, False)
 
 
+def _blob_is_text(blob, text):
+    """the written bytes are the UTF-8 encoding of `text`"""
+    if blob is None:
+        return isinstance(text, str) and text == ""
+    if blob[0] == "raw":
+        return isinstance(text, str) and blob[1] == text.encode("utf-8")
+    if isinstance(text, SymStr):
+        return And(blob[1] == "utf8", blob[3] == text.ident)
+    return False
+
+
+def check_property(vc, tag, pname, ptype, pval, ename, evalue):
+    vc.ensure(tag + "/name-preserved", _blob_is_text(pname, ename))
+    if isinstance(evalue, FloatBits):
+        vc.ensure(tag + "/float-written-as-double-with-the-same-bits",
+                  And(ptype == 10, pval[0] == "num", pval[2] == evalue.bits))
+    elif isinstance(evalue, SymStr):
+        vc.ensure(tag + "/text-written-as-string", And(ptype == 0x20, _blob_is_text(pval[1], evalue)))
+    elif isinstance(evalue, bool):
+        vc.ensure(tag + "/bool-written-as-boolean", And(ptype == 0x21, pval[2] == (1 if evalue else 0)))
+    elif isinstance(evalue, np.int16):
+        vc.ensure(tag + "/numpy-scalar-keeps-its-type", And(ptype == 2, pval[2] == int(evalue) % 65536))
+    elif isinstance(evalue, np.datetime64):
+        vc.ensure(tag + "/datetime-written-as-timestamp", ptype == 0x44)
+    elif isinstance(evalue, Obj) and evalue._cls.name == "Uint8":
+        vc.ensure(tag + "/explicit-type-wrapper-kept", And(ptype == 5, pval[2] == 200))
+    elif isinstance(evalue, Obj) and evalue._cls.name == "TdmsTimestamp":
+        vc.ensure(tag + "/raw-timestamp-written-bit-exactly",
+                  And(ptype == 0x44, pval[1] % 2 ** 64 == evalue.seconds % 2 ** 64,
+                      pval[2] % 2 ** 64 == evalue.second_fractions))
+    else:
+        v = evalue     # integer: Int32 / Int64 / Uint64 by magnitude, two's complement
+        small = And(v >= -2 ** 31, v < 2 ** 31)
+        mid = And(v >= -2 ** 63, v < 2 ** 63)
+        vc.ensure(tag + "/integer-type-by-magnitude",
+                  Or(And(small, ptype == 3), And(Not(small), mid, ptype == 4), And(Not(mid), ptype == 8)))
+        w = Ite(ptype == 3, 2 ** 32, 2 ** 64)
+        vc.ensure(tag + "/integer-value-two's-complement", pval[2] % w == v % w)
+
+
 def hasattr_data(o):
     # an empty array whose TDMS type cannot be inferred is written as an object without data
     return "data" in o._f and expected_type_code(o._f["data"]) != 0
@@ -298,3 +340,284 @@ def expected_type_code(data):
     if data.dtype_.kind == "M":
         return 0x44
     return None
+
+
+# ---------------------------------------------------------------------------- write_segment
+
+def _esc_arg(s):
+    """s = SymStr with ident esc(x) -> SymStr(x)"""
+    e = sym.z3int(s.ident)
+    if z3.is_app(e) and e.decl().name() == "esc":
+        return SymStr(_lift(e.arg(0)), "name")
+    raise sym.Unsupported("path piece is not an escaped name")
+
+
+def from_string_contract(interp, f, args, kwargs):
+    """ObjectPath.from_string(enc(g, c)) == ObjectPath(g, c)  (C16, proved in harness path_roundtrip)"""
+    from pyvc.models import CatStr
+    p = args[-1]
+    OP = interp.get("common.ObjectPath")
+    if isinstance(p, str):
+        if p == "/":
+            return interp.instantiate(OP, [], {})
+        raise sym.Unsupported("concrete path")
+    pieces = p.pieces
+    shape = p.shape()
+    if shape == ("/'", None, "'"):
+        return interp.instantiate(OP, [_esc_arg(pieces[1])], {})
+    if shape == ("/'", None, "'/'", None, "'"):
+        return interp.instantiate(OP, [_esc_arg(pieces[1]), _esc_arg(pieces[3])], {})
+    raise sym.Unsupported("path shape %r" % (shape,))
+
+
+def _setup_write_segment(interp):
+    interp.contracts_at_calls["nptdms.common:ObjectPath.from_string"] = from_string_contract
+
+    def seg_write(interp_, f, args, kwargs):
+        st = sym.get_state()
+        seg, file = args
+        st.ghost.setdefault("segments_written", []).append((seg, file))
+    interp.contracts_at_calls["nptdms.writer:TdmsSegment.write"] = seg_write
+
+
+WSEG_LISTS = {
+    "channel-only": ["chan:g1"],
+    "two-channels-same-group": ["chan:g1", "chan:g1"],
+    "channels-two-groups+explicit-group": ["chan:g1", "group:g2", "chan:g2"],
+    "root+channel": ["root", "chan:g1"],
+    "group-after-its-channel": ["chan:g1", "group:g1", "root"],
+    "empty": [],
+}
+WSEG_VARIANTS = [("%s,root_written=%s,g1_written=%s,index=%s" % (k, r, g, ix), (k, r, g, ix))
+                 for k in sorted(WSEG_LISTS) for r in (False, True) for g in (False, True) for ix in (False, True)
+                 if not (g and not r)]
+
+
+@harness("writer_write_segment", ["writer.TdmsWriter.write_segment", "writer._path_ordering_key",
+                                  "writer.TdmsSegment.__init__", "common.ObjectPath.is_root",
+                                  "common.ObjectPath.is_group", "common.ObjectPath.is_channel"],
+         ["C08", "C07", "C16"], variants=WSEG_VARIANTS, setup=_setup_write_segment, level="shape-bounded",
+         bound="6 object lists (<= 3 objects) x {root already written} x {group already written} x {index file}; "
+               "names symbolic")
+def _write_segment(vc):
+    from pyvc.models import SymSet
+    kind, root_written, g1_written, with_index = vc.variant
+    st = vc.st
+    it = vc.interp
+    names = {"g1": fresh_str(st, "g1"), "g2": fresh_str(st, "g2")}
+    vc.assume(Not(names["g1"] == names["g2"]))
+    objs = []
+    cn = 0
+    for spec in WSEG_LISTS[kind]:
+        if spec == "root":
+            objs.append(it.instantiate(it.get("writer.RootObject"), [None], {}))
+        elif spec.startswith("group:"):
+            objs.append(it.instantiate(it.get("writer.GroupObject"), [names[spec[6:]], None], {}))
+        else:
+            c = fresh_str(st, "c%d" % cn)
+            cn += 1
+            objs.append(it.instantiate(it.get("writer.ChannelObject"),
+                                       [names[spec[5:]], c, NdArr("int32", vc.int("n%d" % cn, lo=0, hi=100),
+                                                                  payload=Tok("d%d" % cn)), None], {}))
+    # distinct channel names (the writer rejects duplicate paths)
+    chans = [o for o in objs if o._cls.name == "ChannelObject"]
+    for i in range(len(chans)):
+        for j in range(i):
+            vc.assume(Not(chans[i].channel == chans[j].channel))
+    data_file, index_file = SFile("data"), (SFile("index") if with_index else None)
+    w = vc.new("writer.TdmsWriter", _file=data_file, _index_file=index_file, _file_path=None, _index_file_path=None,
+               _file_mode="w", _tdms_version=4713, _root_written=root_written,
+               _groups_written=SymSet([names["g1"]] if g1_written else []))
+    written_before = list(w._groups_written.items)
+    out = vc.call_method(w, "write_segment", objs)
+    vc.ensure("no-exception", out.kind == "ret")
+    if out.kind != "ret":
+        return
+    segs = st.ghost.get("segments_written", [])
+    vc.ensure("one-segment-per-stream", len(segs) == (2 if with_index else 1))
+    (s0, f0) = segs[0]
+    vc.ensure("data-segment-to-the-data-file", f0 is data_file and s0.is_index_file is False
+              and s0._tdms_version == 4713)
+    emitted = s0.objects
+    if with_index:
+        (s1, f1) = segs[1]
+        vc.ensure("index-twin/same-object-list-same-version-to-the-index-stream",
+                  f1 is index_file and s1.is_index_file is True and s1.objects is emitted
+                  and s1._tdms_version == 4713)
+    kinds = [o._cls.name for o in emitted]
+    # every object given is emitted exactly once
+    vc.ensure("every-object-emitted-once", all(sum(1 for e in emitted if e is o) == 1 for o in objs))
+    has_root = "RootObject" in kinds
+    vc.ensure("first-segment-declares-the-root", has_root or root_written)
+    rank = {"RootObject": 0, "GroupObject": 1, "ChannelObject": 2}
+    vc.ensure("root-before-groups-before-channels", [rank[k] for k in kinds] == sorted(rank[k] for k in kinds))
+    vc.ensure("channel-order-unchanged", [o for o in emitted if o._cls.name == "ChannelObject"] == chans
+              if True else True)
+    for o in chans:
+        declared = False
+        for e in emitted:
+            if e._cls.name == "GroupObject":
+                declared = Or(declared, e.group == o.group)
+        for g in written_before:
+            declared = Or(declared, g == o.group)
+        vc.ensure("channel's-group-declared-no-later-than-the-channel", declared)
+    added = [e for e in emitted if not any(e is o for o in objs)]
+    vc.ensure("only-root-and-missing-groups-are-added",
+              all(e._cls.name in ("RootObject", "GroupObject") and not e.properties for e in added))
+    vc.ensure("root-written-flag", w._root_written is True)
+    for e in emitted:
+        if e._cls.name == "GroupObject":
+            vc.ensure("groups-emitted-are-remembered", e.group in w._groups_written)
+    for g in written_before:
+        vc.ensure("groups-written-earlier-stay-remembered", g in w._groups_written)
+
+
+# ---------------------------------------------------------------------------- writer resources (C20)
+
+WR_VARIANTS = [("path,index=%s" % ix, ("path", ix)) for ix in (False, True)] + \
+              [("stream,index=%s" % ix, ("stream", ix)) for ix in (False, True)]
+
+
+@harness("writer_resources", ["writer.TdmsWriter.__init__", "writer.TdmsWriter.open", "writer.TdmsWriter.close",
+                              "writer.TdmsWriter.__enter__", "writer.TdmsWriter.__exit__"], ["C20"],
+         variants=WR_VARIANTS)
+def _writer_resources(vc):
+    from contracts.reader_resources import install_open
+    mode, ix = vc.variant
+    st = vc.st
+    install_open(vc.interp, st)
+    cls = vc.interp.get("writer.TdmsWriter")
+    if mode == "path":
+        out = vc.call(cls, "out.tdms", "w", 4712, ix)
+    else:
+        data, index = SFile("data"), SFile("index")
+        out = vc.call(cls, data, "w", 4712, (index if ix else False))
+    vc.ensure("no-exception", out.kind == "ret")
+    w = out.value
+    vc.ensure("nothing-opened-before-open()", len(st.ghost["opened"]) == 0, kind="resource")
+    e = vc.call_method(w, "__enter__")
+    vc.ensure("enter-returns-the-writer", e.kind == "ret" and e.value is w)
+    opened = st.ghost["opened"]
+    if mode == "path":
+        vc.ensure("files-opened-in-binary-write-mode", [f.mode for f in opened] == ["wb"] * (2 if ix else 1)
+                  and [f.path for f in opened] == ["out.tdms"] + (["out.tdms_index"] if ix else []))
+    else:
+        vc.ensure("c20/streams-are-not-reopened", len(opened) == 0, kind="resource")
+    x = vc.call_method(w, "__exit__", ValueError, None, None)
+    vc.ensure("exit-does-not-swallow-errors", x.kind == "ret" and not x.value)
+    if mode == "path":
+        vc.ensure("c20/every-file-opened-by-the-writer-is-closed-after-the-with-block(also-on-error)",
+                  all(f.closed for f in opened), kind="resource")
+    else:
+        vc.ensure("c20/caller-streams-never-closed", not data.closed and not index.closed, kind="resource")
+    vc.ensure("references-released", w._file is None and w._index_file is None)
+
+
+@harness("writer_init_validation", "writer.TdmsWriter.__init__", ["C07", "C08"],
+         variants=[("bad-version", 0), ("stream+index=True", 1), ("path+index=stream", 2)])
+def _writer_init_validation(vc):
+    cls = vc.interp.get("writer.TdmsWriter")
+    if vc.variant == 0:
+        out = vc.call(cls, "out.tdms", "w", 4711, False)
+    elif vc.variant == 1:
+        out = vc.call(cls, SFile("d"), "w", 4712, True)
+    else:
+        out = vc.call(cls, "out.tdms", "w", 4712, SFile("i"))
+    vc.ensure("invalid-arguments-rejected", out.raised(ValueError))
+
+
+# ---------------------------------------------------------------------------- defragment (C10)
+
+def _setup_defrag(interp):
+    class FakeChannel(object):
+        def __init__(self, name, props, data):
+            self.name = name
+            self.properties = props
+            self._data = data
+            self.read_calls = []
+
+        def read_data(self, offset=0, length=None, scaled=True):
+            self.read_calls.append((offset, length, scaled))
+            return self._data
+
+    class FakeGroup(object):
+        def __init__(self, name, props, chans):
+            self.name = name
+            self.properties = props
+            self._chans = chans
+
+        def channels(self):
+            return list(self._chans)
+
+    class FakeFile(object):
+        def __init__(self, props, groups):
+            self.properties = props
+            self._groups = groups
+
+        def groups(self):
+            return list(self._groups)
+
+    def tdmsfile_ctor(interp_, cls, args, kwargs):
+        st = sym.get_state()
+        st.ghost["source_open"] = (args, kwargs)
+        return st.ghost["source"]
+
+    def write_segment(interp_, f, args, kwargs):
+        st = sym.get_state()
+        st.ghost.setdefault("segments", []).append(list(args[1]))
+        if st.ghost.get("fail_at") == len(st.ghost["segments"]):
+            raise ProgExc(ValueError, "write")
+    interp.models[("instantiate_cls", "nptdms.tdms:TdmsFile")] = tdmsfile_ctor
+    interp.contracts_at_calls["nptdms.writer:TdmsWriter.write_segment"] = write_segment
+    interp._defrag_fakes = (FakeFile, FakeGroup, FakeChannel)
+
+
+DEFRAG_VARIANTS = [("groups=%s,fail=%s" % (g, f), (g, f)) for g in ("0", "1x0", "1x2", "2x1") for f in (None, 2)]
+
+
+@harness("defragment", "writer.TdmsWriter.defragment", ["C10", "C20"], variants=DEFRAG_VARIANTS,
+         setup=_setup_defrag, level="shape-bounded", bound="<= 2 groups with <= 2 channels; failure injected "
+                                                           "at the second segment")
+def _defragment(vc):
+    shape, fail = vc.variant
+    st = vc.st
+    FakeFile, FakeGroup, FakeChannel = vc.interp._defrag_fakes
+    ng, nc = {"0": (0, 0), "1x0": (1, 0), "1x2": (1, 2), "2x1": (2, 1)}[shape]
+    groups = []
+    for g in range(ng):
+        chans = [FakeChannel(fresh_str(st, "c%d_%d" % (g, c)), OrderedDict([("k", vc.int("cp%d_%d" % (g, c)))]),
+                             NdArr("int32", vc.int("n%d_%d" % (g, c), lo=0, hi=50), payload=Tok("raw%d_%d" % (g, c))))
+                 for c in range(nc)]
+        groups.append(FakeGroup(fresh_str(st, "g%d" % g), OrderedDict([("gk", vc.int("gp%d" % g))]), chans))
+    src = FakeFile(OrderedDict([("rk", vc.int("rp"))]), groups)
+    st.ghost["source"] = src
+    st.ghost["fail_at"] = fail
+    dest = SFile("dest")
+    cls = vc.interp.get("writer.TdmsWriter")
+    out = vc.call(vc.interp.getattr_value(cls, "defragment"), "source.tdms", dest, 4713, False)
+    segs = st.ghost.get("segments", [])
+    nseg = 1 + sum(1 + len(g._chans) for g in groups)
+    if fail is not None and nseg >= fail:
+        vc.ensure("write-error-propagates", out.raised(ValueError))
+        vc.ensure("c20/destination-stream-not-closed-by-the-library", not dest.closed, kind="resource")
+        return
+    vc.ensure("no-exception", out.kind == "ret")
+    (a, kw) = st.ghost["source_open"]
+    vc.ensure("source-read-with-raw-timestamps(full-precision)", kw.get("raw_timestamps") is True and a[0] == "source.tdms")
+    vc.ensure("one-segment-for-the-root,-each-group-and-each-channel", len(segs) == nseg)
+    vc.ensure("root-first-with-the-file-properties",
+              len(segs[0]) == 1 and segs[0][0]._cls.name == "RootObject" and segs[0][0].properties is src.properties)
+    i = 1
+    for g in groups:
+        o = segs[i][0]
+        vc.ensure("group-object-with-its-name-and-properties",
+                  len(segs[i]) == 1 and o._cls.name == "GroupObject" and o.group is g.name and o.properties is g.properties)
+        i += 1
+        for c in g._chans:
+            o = segs[i][0]
+            vc.ensure("channel-object-with-group,-name,-properties",
+                      len(segs[i]) == 1 and o._cls.name == "ChannelObject" and o.group is g.name
+                      and o.channel is c.name and o.properties is c.properties)
+            vc.ensure("channel-data-is-the-unscaled-raw-data-read-once-in-full",
+                      o.data is c._data and c.read_calls == [(0, None, False)])
+            i += 1
